@@ -71,6 +71,7 @@ type genMerge struct {
 }
 
 type Gen struct {
+	entryAcq map[string]bool // acquisition bits whose entry value (false) has been stated
 	cellGhosts map[string]types.Type // scalar expression ghosts kept in the symbolic state (heap "ghost:<name>")
 	localAllocs []localAlloc // non-escaping local variables (exempt from the havoc of unknown callees)
 	keySorts map[string]string // datatype declarations of struct map-key sorts (see structKeySort)
